@@ -29,6 +29,12 @@ func verifyLemmas(P *Program, L *Library, labels []string, opt solveOpts) []*Fun
 		x := newExec(P, L)
 		x.closures = map[string]*closureInfo{}
 		x.curFn = "lemma"
+		x.revealAll = true
+		lopt := L.LemmaOpts[lab]
+		if lopt != nil && lopt.Reveal != nil {
+			x.revealAll = false
+			x.reveal = lopt.Reveal
+		}
 		st := newState()
 		st.alloc = "1"
 		func() {
@@ -38,6 +44,32 @@ func verifyLemmas(P *Program, L *Library, labels []string, opt solveOpts) []*Fun
 				}
 			}()
 			var unf []string
+			// separately proved lemmas may be used as hypotheses
+			if lopt != nil {
+				for _, u := range lopt.Using {
+					var ucl *Clause
+					for _, c := range L.Lemmas {
+						if c.Label == u {
+							ucl = c
+						}
+					}
+					if ucl == nil {
+						fr.Err = fmt.Sprintf("lemma %s: unknown lemma %s in using", lab, u)
+						return
+					}
+					var uunf []string
+					uenv := &Env{x: x, st: st, names: map[string]Val{}, bound: map[string]Val{}, pkg: L.AxPkg[ucl], unfold: &uunf}
+					ut, err := uenv.evalBool(ucl.Expr)
+					if err != nil {
+						fr.Err = fmt.Sprintf("lemma %s: using %s: %v", lab, u, err)
+						return
+					}
+					st.assume(ut)
+					for _, e := range uunf {
+						st.assume(e)
+					}
+				}
+			}
 			env := &Env{x: x, st: st, names: map[string]Val{}, bound: map[string]Val{}, pkg: L.AxPkg[cl], unfold: &unf}
 			t, err := env.evalBool(cl.Expr)
 			if err != nil {
@@ -159,6 +191,3 @@ func (x *Exec) constExprTerm(p *packages.Package, e ast.Expr) (string, bool) {
 	return x.C.mkStruct(tv.Type, args), true
 }
 
-// checkSchema is filled in by schema.go
-
-func checkSchema(P *Program, items []string) []*FuncResult { return nil }
